@@ -2088,7 +2088,7 @@ CLAUSES = [
                 'keywords a1vect / a2vect / xvect of all conversion methods and of E_gsf / delta; input forms; caller\'s arrays unchanged'),
     Clause('model', oracle_model, G.model_cases, quick=400, thorough=6000,
            min_share={'nt': 0.3, 'json': 0.3, 'history_load_into_existing': 0.2,
-                      'lscale_1': 0.2, 'lscale_small': 0.19, 'lscale_big': 0.08, 'escale_1': 0.22, 'escale_small': 0.1, 'escale_big': 0.09},
+                      'lscale_1': 0.2, 'lscale_small': 0.19, 'lscale_big': 0.05, 'escale_1': 0.22, 'escale_small': 0.1, 'escale_big': 0.09},
            desc='model() -> JSON/XML text, DataModelDict or file -> GammaSurface: same data, vectors, box, answers'),
     Clause('pn_terms', oracle_pn_terms, G.pn_hist_cases, quick=1500, thorough=25000,
            min_share=_BlockedGuard({'nt': 0.16, 'mixed': 0.23, 'K_offdiag': 0.13, 'N>120': 0.1, 'cdiffelastic': 0.15, 'tau': 0.15,
@@ -2116,7 +2116,7 @@ CLAUSES = [
            min_share=_BlockedGuard({'moved': 0.5, 'lowered': 0.4, 'history': 0.28, 'history_same_len_new_spacing': 0.05,
                                     'history_eval_between_store_and_solve': 0.07,
                                     'forms': 0.4, 'int_typed': 0.2, 'dform_int': 0.08, 'dform_ro': 0.03,
-                                    'lscale_1': 0.2, 'lscale_small': 0.05, 'lscale_big': 0.08, 'escale_small': 0.08, 'escale_big': 0.08}),
+                                    'lscale_1': 0.2, 'lscale_small': 0.05, 'lscale_big': 0.04, 'escale_small': 0.08, 'escale_big': 0.08}),
            desc='solve never raises the (independently evaluated) total energy, end rows/x/out-of-plane component unchanged; initial guess '
                 'and x as float / integer-typed / read-only / non-contiguous arrays, lists, tuples: caller\'s arrays unchanged, stored '
                 'solution = the minimiser\'s result'),
